@@ -16,6 +16,7 @@ use vrt::*;
 use join::*;
 use vexec::harness::{AProg, gated, gated_r, gated2, gvia};
 use vexec::gate;
+fn after<T>(_: (), v: T) -> T { v }
 use vexec::Root;
 use futures::future::ready;
 """
